@@ -20,14 +20,14 @@ Main == "t1"
 \* the probe executed by the replayer (harness/src/main.rs Cmd::Round), as <<a,b,c,d,e,f,g>>:
 \* round(2.5,0) round(-2.5,0) div_rounded(1,3,0) div_rounded(-1,3,0) mul_rounded(3.5,1.0,0) (5e-10*5e-9 at 18 digits) format!("{:.0}", 6.5) round(2.7,0) ((10^21+1)e-18 * 0.5 at 18 digits, minus 5*10^20: the 256-bit product path) (1.5e-18 / 2 with the / operator) (10^21 / 8 exact on the 256-bit division path, minus 125*10^18: 0 in every mode)
 Probe(m) ==
-  CASE m = "Round05Up"     -> <<2, -2, 1, -1, 3, 2, 6, 2, 1, 1, 0>>
-    [] m = "RoundCeiling"  -> <<3, -2, 1, 0, 4, 3, 7, 3, 1, 2, 0>>
-    [] m = "RoundDown"     -> <<2, -2, 0, 0, 3, 2, 6, 2, 0, 1, 0>>
-    [] m = "RoundFloor"    -> <<2, -3, 0, -1, 3, 2, 6, 2, 0, 1, 0>>
-    [] m = "RoundHalfDown" -> <<2, -2, 0, 0, 3, 2, 6, 3, 0, 1, 0>>
-    [] m = "RoundHalfEven" -> <<2, -2, 0, 0, 4, 2, 6, 3, 0, 2, 0>>
-    [] m = "RoundHalfUp"   -> <<3, -3, 0, 0, 4, 3, 7, 3, 1, 2, 0>>
-    [] m = "RoundUp"       -> <<3, -3, 1, -1, 4, 3, 7, 3, 1, 2, 0>>
+  CASE m = "Round05Up"     -> <<2, -2, 1, -1, 3, 2, 6, 2, 1, 1, 0, 1, -1, -1>>
+    [] m = "RoundCeiling"  -> <<3, -2, 1, 0, 4, 3, 7, 3, 1, 2, 0, 1, 0, 0>>
+    [] m = "RoundDown"     -> <<2, -2, 0, 0, 3, 2, 6, 2, 0, 1, 0, 0, 0, 0>>
+    [] m = "RoundFloor"    -> <<2, -3, 0, -1, 3, 2, 6, 2, 0, 1, 0, 0, -1, -1>>
+    [] m = "RoundHalfDown" -> <<2, -2, 0, 0, 3, 2, 6, 3, 0, 1, 0, 0, 0, 0>>
+    [] m = "RoundHalfEven" -> <<2, -2, 0, 0, 4, 2, 6, 3, 0, 2, 0, 0, 0, 0>>
+    [] m = "RoundHalfUp"   -> <<3, -3, 0, 0, 4, 3, 7, 3, 1, 2, 0, 0, 0, 0>>
+    [] m = "RoundUp"       -> <<3, -3, 1, -1, 4, 3, 7, 3, 1, 2, 0, 1, -1, -1>>
 
 Eff(t) == IF Variant = "global" THEN gmode ELSE mode[t]
 Init == alive = {Main} /\ mode = [t \in Threads |-> "RoundHalfEven"] /\ hist = <<>> /\ gmode = "RoundHalfEven"
